@@ -602,11 +602,19 @@ func clauseLabel(cl *Clause) string {
 	return ""
 }
 
+// supportTag marks the obligation of a contract clause that carries no property tag: such a clause supports the
+// proofs of all the tagged clauses around it (callers assume it), so it counts for every property that has a tagged
+// clause in the contract of the function being verified (check.go), besides the package's run tags.
+const supportTag = "§support"
+
 func (x *Exec) tagsOr(tags []string, fr *Frame) []string {
 	if len(tags) > 0 {
 		return tags
 	}
-	return x.runTags(fr)
+	rt := x.runTags(fr)
+	out := make([]string, 0, len(rt)+1)
+	out = append(out, rt...)
+	return append(out, supportTag)
 }
 
 func (c *Ctx) execGhost(g *Clause, vars map[string]Value, old *State) {
@@ -1008,7 +1016,19 @@ func (c *Ctx) intrinsic(o *types.Func, recv Value, args []Value, e *ast.CallExpr
 		return c.arbitrary("binary.Uint16", rt)
 	case "(*encoding/gob.Encoder).Encode":
 		return c.arbitrary("gob.Encode", rt)
-	case "(*go.uber.org/zap.Logger).Fatal", "(*go.uber.org/zap.Logger).Panic", "os.Exit":
+	case "(*go.uber.org/zap.Logger).Fatal", "os.Exit":
+		// the process ends here (A5): the path is not continued
+		c.st.assume(False)
+		return Value{Kind: KNone}
+	case "(*go.uber.org/zap.Logger).Panic", "(*go.uber.org/zap.SugaredLogger).Panic", "(*go.uber.org/zap.SugaredLogger).Panicf",
+		"(*go.uber.org/zap.SugaredLogger).Panicw", "(*go.uber.org/zap.SugaredLogger).Panicln":
+		// a logger call that panics is a panic of the library: reaching it is an obligation
+		if !c.spec {
+			c.oblige("panic", "Logger.Panic", False, e.Pos())
+		}
+		c.st.assume(False)
+		return Value{Kind: KNone}
+	case "(*go.uber.org/zap.SugaredLogger).Fatal", "(*go.uber.org/zap.SugaredLogger).Fatalf", "(*go.uber.org/zap.SugaredLogger).Fatalw", "(*go.uber.org/zap.SugaredLogger).Fatalln":
 		c.st.assume(False)
 		return Value{Kind: KNone}
 	}
